@@ -6,7 +6,11 @@ real noise-free run vs Qiskit's Statevector marginals (tolerance 1e-9), all five
 pairs for the index class, permuted first-touch order, measured subsets, entangled psi0, fix_counts key reversal.
 Gap (iii), index class: Model/SimLoop.v (instruction loop -> method calls on internal indices) is compared exactly, inside Coq, with
 the recorded method calls and matrix placements of the real simulator (checks/c03_simloop.py: small-exhaustive, random and direct
-streams); C03_end_to_end composes it with C14 / C08 / the run theorems."""
+streams); C03_end_to_end composes it with C14 / C08 / the run theorems.
+Layered classes: Model/SimLoopLayered.v (the else-branch of the loop: per-qubit calls with identity padding, physical label = index) is
+compared exactly with the recorded method calls -- I(k) included -- of the real simulator on Circuit / Standard / Efficient / OneCircuit
+(checks/c03_simloop_layered.py); C03_end_to_end_layered composes calls -> builder (C11 lstep) -> stored layers -> backend (C01) -> Born
+rule with C14 / C08."""
 import sys, json
 import numpy as np
 from vlib.common import Check
@@ -18,6 +22,7 @@ def main(argv):
     import checks.circuit_trace as ct
     import checks.gates_trace as gt
     import checks.c03_simloop as sl
+    import checks.c03_simloop_layered as ll
     from quantum_gates._gates.gates import noise_free_gates
     from quantum_gates._utility.simulations_utility import fix_counts
     ck.rule = ("obligations = theorems of Props/C03.v (+ regeneration of both traces, correspondence, oracle); a case = (class, labels, random native circuit, "
@@ -25,9 +30,10 @@ def main(argv):
     ck.trusted = ["Coq 8.16.1 kernel + vm_compute", "coq/Sym (sound reflective normaliser)", "tracers (gates_trace, circuit_trace)",
                   "Qiskit's Statevector / gate conventions (oracle side only)",
                   "whole noise-free runs: index class proved end to end from the builder model through the backend theorem (C03_builder_backend_run, C03_noise_free_born_*); "
-                  "layered classes from the stored layers on (C03_layered_builder_full is stated, not proved); index class: the simulator loop from Qiskit instructions to method "
-                  "calls (layout, delay, barrier, measure, read-out) is Model/SimLoop.v, tied by exact correspondence of the recorded method calls, and composed end to end "
-                  "(C03_end_to_end); layered classes: that loop is covered by the hand-off theorems of C08 plus the exact call-sequence correspondence and the oracle; "
+                  "layered classes (Standard / Efficient / OneCircuit) likewise: C03_layered_builder (= C03_layered_builder_full, proved), C03_layered_calls_builder, C03_layered_backend; "
+                  "the simulator loop from Qiskit instructions to method calls (layout, delay, barrier, measure, read-out; identity padding for the layered classes) is "
+                  "Model/SimLoop.v resp. Model/SimLoopLayered.v, tied by exact correspondence of the recorded method calls, and composed end to end "
+                  "(C03_end_to_end, C03_end_to_end_layered); the grid class Circuit shares the layered branch (same correspondence) but its own statevector() is covered by the oracle only; "
                   "the mean over the shots of a deterministic gate set is C09",
                   "floating-point rounding outside the model"]
     rng = np.random.default_rng(ck.seed)
@@ -45,7 +51,13 @@ def main(argv):
 
     if ck.replay:
         doc = json.load(open(ck.replay))["replay"]
-        if doc.get("family") == "simloop":
+        if doc.get("family") == "simloop_layered":
+            instrs = [(a, list(b), c) for a, b, c in doc["instrs"]]
+            rec = ll.run_recorded(doc["cls"], instrs, doc["nphys"])
+            why, _ = ll.oracle(doc["cls"], instrs, doc["nphys"], np.random.default_rng(ck.seed)) if ll.in_domain(instrs) else ("outside the layered classes' domain", None)
+            print("replay:", doc["cls"], "recorded method calls", rec[1] if rec[0] == "ok" else rec)
+            print("replay: noise-free run vs Qiskit ->", why or "holds")
+        elif doc.get("family") == "simloop":
             instrs = [(a, list(b), c) for a, b, c in doc["instrs"]]
             rec = sl.run_recorded(instrs, doc["nphys"])
             why, _ = sl.oracle(instrs, doc["nphys"], np.random.default_rng(ck.seed))
@@ -165,6 +177,68 @@ def main(argv):
                          "(the noise-free oracle passes on every explored input)" % (doc.get("instrs") or doc.get("raw")), doc, False)
         else:
             sl_report = ("corr-build:simloop", "correspondence file failed to compile: %s" % (sl_build,), {"correspondence": sl_build[0], "log": sl_build[1]}, False)
+    # ---- layered classes: Model/SimLoopLayered.v = the else-branch of the loop, exactly (method calls incl. I(k), the classes' own exceptions) ----
+    lq = ck.tier == "quick"
+    ll_cases = []   # (class, instrs, nphys, family, in the domain)
+    for i, (ins, nphys) in enumerate(ll.exhaustive_cases(2 if lq else 3)):
+        ll_cases.append((ll.LAYERED[i % 4], ins, nphys, "exhaustive", True))
+    for t in range(160 if lq else 1600):
+        ins, nphys = ll.random_case(rng, domain=True); ll_cases.append((ll.LAYERED[t % 4], ins, nphys, "random", ll.in_domain(ins)))
+    for t in range(60 if lq else 600):
+        ins, nphys = ll.random_case(rng, domain=False); ll_cases.append((ll.LAYERED[t % 4], ins, nphys, "outside", ll.in_domain(ins)))
+    ll_terms = []; ll_res = []
+    for cls, ins, nphys, fam, dom in ll_cases:
+        r = ll.run_recorded(cls, ins, nphys); ll_res.append(r)
+        ll_terms.append(ll.coq_case_run(cls, ins, None, r))
+        ck.count("simloop_translate_layered" if dom else "simloop_translate_layered_outside", 1, key=(cls, fam, repr(ins)) if len(ins) > 1 else None,
+                 sample={"cls": cls, "family": fam, "instrs": [list(map(str, i)) for i in ins[:8]], "calls": r[1][:6] if r[0] == "ok" else r[1]})
+    ld_cases = [ll.direct_case(rng, malformed=(t % 3 == 2)) for t in range(240 if lq else 2400)]
+    ld_terms = []
+    for i, (raw, layout, nq, dom) in enumerate(ld_cases):
+        r = ll.run_direct(ll.LAYERED[i % 4], raw, layout, nq)
+        ld_terms.append(sl.coq_case_direct(raw, layout, nq, r))
+        ck.count("simloop_translate_layered_direct" if dom else "simloop_translate_layered_malformed", 1, key=(repr(raw), tuple(layout), nq) if raw else None,
+                 sample={"raw": [list(map(str, x)) for x in raw[:6]], "layout": layout, "nq": nq, "result": r[1][:4] if r[0] == "ok" else r[1]})
+    lshards = []
+    for s0 in range(0, len(ll_terms), per): lshards.append(("c03_simlay_%d" % (s0 // per), ll.shard_run(ll_terms[s0:s0 + per]), "run", s0))
+    for s0 in range(0, len(ld_terms), per): lshards.append(("c03_simlaydirect_%d" % (s0 // per), ll.shard_direct(ld_terms[s0:s0 + per]), "direct", s0))
+    ll_bad = []; ll_build = None
+    for (name, rc, out2), (_, _, kind, s0) in zip(ck.coq_eval_many([(a, b) for a, b, _, _ in lshards]), lshards):
+        idx = sl.parse_bad(out2) if rc == 0 else None
+        if idx is None:
+            ll_build = ll_build or (name, out2[-600:]); continue
+        for i in idx:
+            if kind == "run" and ll_cases[s0 + i][4]: ll_bad.append(("run", s0 + i))
+            elif kind == "direct" and ld_cases[s0 + i][3]: ll_bad.append(("direct", s0 + i))
+            else: ck.notes.append("SimLoopLayered model and implementation differ on the out-of-domain input %r (not a violation)"
+                                  % ((ll_cases[s0 + i][:3] if kind == "run" else ld_cases[s0 + i][:3]),))
+    ck.oblige("correspondence: recorded method calls (I(k) included) of the real layered loop on Circuit / Standard / Efficient / OneCircuit == "
+              "SimLoopLayered.translate_calls_layered in Coq (%d run cases, %d direct)" % (len(ll_terms), len(ld_terms)), not ll_bad and ll_build is None)
+    ll_report = None
+    if ll_bad or ll_build:
+        cand = [ll_cases[i][:3] for k, i in ll_bad if k == "run"][:40] + [c[:3] for c in ll_cases[::7] if c[4]][:60]
+        found = None
+        for cls, ins, nphys in cand:
+            why, psi0 = ll.oracle(cls, ins, nphys, rng, tries=2)
+            if why:
+                found = {"family": "simloop_layered", "cls": cls, "labels": sl.used_labels(ins), "nphys": nphys, "instrs": [[a, list(b), c] for a, b, c in ins],
+                         "psi0": [[float(z.real), float(z.imag)] for z in psi0], "what": why}
+                break
+        if found:
+            ll_report = ("oracle:simloop_layered", "%s %s: %s (instruction loop differs from Model/SimLoopLayered.v)" % (found["cls"], found["labels"], found["what"]), found, True)
+        elif ll_bad:
+            k, i = ll_bad[0]
+            if k == "run":
+                cls, ins, nphys, fam, _ = ll_cases[i]
+                doc = {"family": "simloop_layered", "correspondence": "C03 simloop_translate_layered (%s)" % fam, "cls": cls, "nphys": nphys,
+                       "instrs": [[a, list(b), c] for a, b, c in ins], "impl": ll_res[i]}
+            else:
+                raw, layout, nq, _ = ld_cases[i]
+                doc = {"correspondence": "C03 simloop_translate_layered_direct", "raw": raw, "layout": layout, "nq": nq}
+            ll_report = ("corr:simloop_layered", "the real layered instruction loop issues other method calls than Model/SimLoopLayered.v on %s; C03_end_to_end_layered no longer "
+                         "speaks about this code (the noise-free oracle passes on every explored input)" % (doc.get("instrs") or doc.get("raw")), doc, False)
+        else:
+            ll_report = ("corr-build:simloop_layered", "correspondence file failed to compile: %s" % (ll_build,), {"correspondence": ll_build[0], "log": ll_build[1]}, False)
     # thorough: the bundled benchmark circuits transpiled offline against fake backends (cx and ecr bases, linear and scattered layouts)
     if ck.tier == "thorough":
         import io, contextlib
@@ -209,6 +283,8 @@ def main(argv):
         ck.report("corr", "real call sequence differs from the model's prediction on %s %s" % (corr_bad["cls"], corr_bad["labels"]), dict(corr_bad, correspondence="C03 call sequence"), False)
     elif sl_report:
         ck.report(*sl_report)
+    elif ll_report:
+        ck.report(*ll_report)
     return ck.finish()
 
 
